@@ -552,6 +552,7 @@ theorem handler_WInv {c : Cfg} {s s' : St} {e : Env} {op : Op} {m : List Msg} (h
   | expandFlow id a amt en => exact hI.of_wcore (expandFlow_wcore h)
   | closeFlow id => exact hI.of_wcore (closeFlow_wcore h)
   | helperDeposit a0 a1 dur => cases h
+  | helperDepositAs x0 x1 a0 a1 dur => cases h
 
 theorem WInv.with_bal {s : St} (h : WInv s) (b : Bal) : WInv { s with bal := b } :=
   h.frame rfl rfl rfl
